@@ -382,11 +382,12 @@ class Server(object):
         params = self._gather_params(arg[end+1:])
 
         if b'SIZE' in params:
-            try:
-                size = int(params[b'SIZE'])
-            except ValueError:
+            size_raw = params[b'SIZE']
+            # RFC 1870: digits only (int() would also take '-5', '1_0', True)
+            if not isinstance(size_raw, bytes) or not size_raw.isdigit():
                 bad_arguments.send(self.io)
                 return
+            size = int(size_raw)
             max_size = self.extensions.getparam('SIZE', filter=int)
             if max_size is not None:
                 if size > max_size:
